@@ -619,6 +619,80 @@ def ex_worker(bdir, which, relay, L, lo, hi, local_ips):
     return res
 
 
+# ------------------------------------------------------------------ the length limit and the local-IP substitution
+
+def length_worker(bdir, local_ips, variants):
+    """The documents give no number for the address length limit, so the model tolerates a band; what the statement
+    does fix is that local IP-literal domains are replaced *before* the acceptance checks.  Measured here: the largest
+    accepted length of plain recipients (the daemon's own limit T) and the largest accepted length-after-substitution of
+    recipients written with a local IP literal.  They must be the same number, replies must be monotone in the length,
+    and T must lie inside the model's band."""
+    res = core.Result()
+    b = build.Build("asan", bdir)
+    home, rec = new_home(b)
+    lit_ip = b"127.0.0.1" if b"127.0.0.1" in local_ips else (sorted(local_ips)[0] if local_ips else None)
+    try:
+        for lih, relay in variants:
+            if lit_ip is None:
+                res.inconclusive.append("no local IP address known: the substitution cannot be exercised")
+                break
+            sub_host = lih if lih is not None else b"me.test"
+            cfg = M.Config(b"me.test", rcpthosts=[b"a.test", sub_host], morercpthosts=None, badmailfrom=None, localiphost=lih,
+                           relayclient=relay, local_ips=local_ips)
+            install_config(b, home, cfg)
+            lengths = list(range(M.LEN_MUST_ACCEPT - 2, M.LEN_MUST_REJECT + 3, 23)) + list(range(880, 915))
+            lengths = sorted(set(lengths))
+            plain = [(n, b"p" * (n - 7) + b"@a.test") for n in lengths]
+            lit = [(n, b"q" * (n - 1 - len(sub_host)) + b"@[" + lit_ip + b"]") for n in lengths if n - 1 - len(sub_host) > 0]
+            wire = b"MAIL FROM:<s@client.test>\r\n" + b"".join(b"RCPT TO:<" + a + b">\r\n" for _, a in plain + lit) + b"QUIT\r\n"
+            sess = smtpdrive.Session([home + "/bin/qmail-smtpd"], smtpd_env(b, home, rec, cfg), timeout=120)
+            try:
+                sess.write(wire)
+                sess.finish()
+            except smtpdrive.Timeout:
+                sess.abort()
+                res.inconclusive.append("length probe session timed out")
+                continue
+            if smtpdrive.sanitizer_hit(sess.err, sess.rc):
+                res.violate("C20/sanitizer/qmail-smtpd/" + hrun.sanitizer_site(sess.err.decode("latin1")), "sanitizer report in the length probe",
+                            {"stderr": core.hx(sess.err[-1500:])})
+                continue
+            codes = [r[0] for r in sess.replies]
+            need = 2 + len(plain) + len(lit) + 1
+            if len(codes) != need or codes[0] != 220 or codes[1] != 250:
+                res.inconclusive.append("length probe: %d replies for %d units (%r...)" % (len(codes), need, codes[:4]))
+                continue
+            res.evaluations += len(plain) + len(lit)
+            got_p = dict(zip([n for n, _ in plain], codes[2:2 + len(plain)]))
+            got_l = dict(zip([n for n, _ in lit], codes[2 + len(plain):2 + len(plain) + len(lit)]))
+            wit = {"localiphost": None if lih is None else core.hx(lih), "RELAYCLIENT": None if relay is None else core.hx(relay),
+                   "literal": core.hx(lit_ip), "plain_replies": {str(k): v for k, v in got_p.items() if 870 < k < 930},
+                   "literal_replies_by_length_after_substitution": {str(k): v for k, v in got_l.items() if 870 < k < 930}}
+
+            def threshold(got, what):
+                acc = [n for n, c in got.items() if c == 250]
+                ref = [n for n, c in got.items() if c != 250]
+                if any(c is None or not (500 <= c < 600) for n, c in got.items() if c != 250):
+                    res.violate("C08/length/refusal-not-permanent/" + what, "an over-long address was not refused with 5xx", wit)
+                if acc and ref and max(acc) > min(ref):
+                    res.violate("C08/length/not-monotone/" + what, "length %d accepted but %d refused" % (max(acc), min(ref)), wit)
+                return max(acc) if acc else None
+            tp = threshold(got_p, "plain")
+            tl = threshold(got_l, "local-ip-literal")
+            res.counters.setdefault("length_limit_observed", {})
+            res.counters["length_limit_observed"]["%s/%s" % (tp, tl)] = res.counters["length_limit_observed"].get("%s/%s" % (tp, tl), 0) + 1
+            if tp is None or not (M.LEN_MUST_ACCEPT <= tp < M.LEN_MUST_REJECT):
+                res.violate("C08/length/limit-outside-band", "largest accepted plain recipient has %s bytes" % tp, wit)
+            if tp is not None and tl != tp:
+                res.violate("C08/length/limit-not-applied-after-local-ip-substitution",
+                            "plain recipients are accepted up to %s bytes, recipients with a local IP literal up to %s bytes after the "
+                            "substitution of %r" % (tp, tl, sub_host), wit)
+            res.nontrivial("length", lih, relay)
+    finally:
+        shutil.rmtree(home, ignore_errors=True)
+    return res
+
+
 # ------------------------------------------------------------------ main
 
 def plan(tier):
@@ -646,8 +720,15 @@ def main(tier):
             jobs.append((ex_worker, (b.dir, which, relay, L, lo, hi, local_ips)))
     for lo, hi in core.chunks(nconf, core.JOBS * 4):
         jobs.append((random_worker, (b.dir, lo, hi, nsess, local_ips)))
+    lvars = [(None, None), (b"lip.test", None), (b"a-rather-long-name-for-this-host.lip.example", None),
+             (b"x" * 60 + b".lip.example", b"@relay.test"), (b"l.t", None), (b"lip.test", b"")]
+    for k in range(0, len(lvars), 2):
+        jobs.append((length_worker, (b.dir, local_ips, lvars[k:k + 2])))
     res = core.pmap(_dispatch, jobs, timeout=7200)
-    rule = ("real qmail-smtpd (asan) + qq-rec. (1) bounded-exhaustive: every sequence of exactly L commands "
+    rule = ("(3) the daemon's own address length limit measured with plain recipients and with recipients written with a local IP "
+            "literal (length after substitution of localiphost/me; 6 configurations, every length 880..914 and a coarse grid over the "
+            "model's band): same limit, monotone, permanent refusals. "
+            "real qmail-smtpd (asan) + qq-rec. (1) bounded-exhaustive: every sequence of exactly L commands "
             "(shorter ones are prefixes, judged reply by reply) over a %d-symbol pool {HELO,RSET,NOOP,unknown,MAIL good/bad-sender,"
             "RCPT exact/wildcard/denied,DATA} and a %d-symbol pool (+EHLO,VRFY,HELP,QUIT,MAIL <>,RCPT via morercpthosts.cdb): %s = %d sequences; "
             "(2) %d random configurations (rcpthosts w/ comments+trailing blanks, morercpthosts.cdb by the tree's qmail-newmrh, "
